@@ -30,12 +30,9 @@ func c04Observe(rd index.IndexReader, W, K int) (docs [][]int, ints []int, count
 	docs = make([][]int, W)
 	ints = make([]int, W)
 	for w := 0; w < W; w++ {
-		docs[w] = make([]int, K+2)
-		for k := 0; k < K+2; k++ {
-			id := fmt.Sprintf("w%d-%d", w, k)
-			if k >= K {
-				id = fmt.Sprintf("w%d-x%d", w, k-K)
-			}
+		docs[w] = make([]int, K+8)
+		for k := 0; k < K+8; k++ {
+			id := c04DocID(w, k, K)
 			d, e := rd.Document(id)
 			if e != nil {
 				return nil, nil, 0, e
@@ -100,6 +97,33 @@ func c04Extra(rd index.IndexReader) string {
 		tfr.Close()
 	}
 	return sb.String()
+}
+
+// document k of writer w: K fixed documents, two extras, six ring slots
+func c04DocID(w, k, K int) string {
+	switch {
+	case k < K:
+		return fmt.Sprintf("w%d-%d", w, k)
+	case k < K+2:
+		return fmt.Sprintf("w%d-x%d", w, k-K)
+	}
+	return fmt.Sprintf("w%d-r%d", w, k-K-2)
+}
+
+// the n-th batch of writer w
+func c04FillBatch(b *bleve.Batch, w, n, K int) {
+	for k := 0; k < K; k++ {
+		_ = b.Index(c04DocID(w, k, K), map[string]interface{}{"seq": float64(n), "pad": strings.Repeat("x ", n%7)})
+	}
+	for j := 0; j < 2; j++ {
+		if j < n%3 {
+			_ = b.Index(c04DocID(w, K+j, K), map[string]interface{}{"seq": float64(n)})
+		} else {
+			b.Delete(c04DocID(w, K+j, K))
+		}
+	}
+	_ = b.Index(c04DocID(w, K+2+n%6, K), map[string]interface{}{"seq": float64(n), "pad": "ring"})
+	b.SetInternal([]byte(fmt.Sprintf("w%d", w)), []byte(fmt.Sprint(n)))
 }
 
 func c04Line(client int, acked []int, docs [][]int, ints []int, count uint64) string {
@@ -177,17 +201,7 @@ func runC04(t *Trace, r *Rng, tier string, _ []string) {
 					}
 					n++
 					b := idx.NewBatch()
-					for k := 0; k < K; k++ {
-						_ = b.Index(fmt.Sprintf("w%d-%d", w, k), map[string]interface{}{"seq": float64(n), "pad": strings.Repeat("x ", n%7)})
-					}
-					for j := 0; j < 2; j++ {
-						if j < n%3 {
-							_ = b.Index(fmt.Sprintf("w%d-x%d", w, j), map[string]interface{}{"seq": float64(n)})
-						} else {
-							b.Delete(fmt.Sprintf("w%d-x%d", w, j))
-						}
-					}
-					b.SetInternal([]byte(fmt.Sprintf("w%d", w)), []byte(fmt.Sprint(n)))
+					c04FillBatch(b, w, n, K)
 					if err := idx.Batch(b); err != nil {
 						return
 					}
@@ -254,16 +268,18 @@ func runC04(t *Trace, r *Rng, tier string, _ []string) {
 				docs := make([][]int, W)
 				ints := make([]int, W)
 				for w := range docs {
-					docs[w] = make([]int, K+2)
+					docs[w] = make([]int, K+8)
 				}
 				for _, h := range res.Hits {
 					var w, k int
 					if n, _ := fmt.Sscanf(h.ID, "w%d-x%d", &w, &k); n == 2 {
 						k += K
+					} else if n, _ := fmt.Sscanf(h.ID, "w%d-r%d", &w, &k); n == 2 {
+						k += K + 2
 					} else {
 						fmt.Sscanf(h.ID, "w%d-%d", &w, &k)
 					}
-					if v, ok := h.Fields["seq"].(float64); ok && w < W && k < K+2 {
+					if v, ok := h.Fields["seq"].(float64); ok && w < W && k < K+8 {
 						docs[w][k] = int(v)
 					}
 				}
